@@ -332,6 +332,35 @@ def quirks(src, strip_comments, fn_body):
     return {"q": (per_db, rewatch, purges), "recognised": not notes, "notes": notes}
 
 
+def key_is_bytes(src, strip_comments, fn_body):
+    """Do WATCH / UNWATCH / EXEC hand the key to the storage engine as the bytes of the frame?
+      handle_watch   binds `key` to the bulk string unchanged (`bytes.as_ref().clone()`, `.to_vec()`, `bytes.clone()`), passes
+                     `&key` to register_watch, and contains no text conversion (from_utf8, to_string, String::, as_str,
+                     to_uppercase/lowercase, trim) at all
+      handle_unwatch passes the stored `key` to unregister_watch, no text conversion in its body
+      handle_exec    passes the stored `key` of the loop over watched_keys to was_modified_since
+    -> (bool, notes)"""
+    t = strip_comments(src("storage/commands/transactions.rs"))
+    sv = strip_comments(src("network/server.rs"))
+    hw, hu, he = fn_body(t, "handle_watch"), fn_body(t, "handle_unwatch"), fn_body(sv, "handle_exec")
+    conv = re.compile(r"from_utf8|to_string\s*\(|\bString\s*::|\.as_str\s*\(|to_uppercase|to_lowercase|\.trim\s*\(|to_ascii|into_bytes")
+    notes = []
+    if hw is None or hu is None or he is None:
+        return False, ["handle_watch / handle_unwatch / Server::handle_exec not found"]
+    if not re.search(r"let\s+key\s*=\s*bytes\s*(?:\.\s*as_ref\s*\(\s*\))?\s*\.\s*(?:clone|to_vec)\s*\(\s*\)\s*;", hw):
+        notes.append("handle_watch: `key` is not bound to the bulk string unchanged")
+    if not re.search(r"register_watch\s*\(\s*[\w\.\*]+\s*,\s*&\s*key\s*\)", hw):
+        notes.append("handle_watch: register_watch is not called with `&key`")
+    if conv.search(hw):
+        notes.append("handle_watch contains a text conversion (%s)" % conv.search(hw).group(0))
+    if not re.search(r"unregister_watch\s*\(\s*[\w\.\*]+\s*,\s*&?\s*key\s*\)", hu) or conv.search(hu):
+        notes.append("handle_unwatch: unregister_watch is not called with the stored `key`, or a text conversion is present")
+    if not re.search(r"for\s*\(\s*(?:\(\s*\w+\s*,\s*key\s*\)|key)\s*,\s*\w+\s*\)\s+in\s+&\s*watched_keys", he) or \
+            not re.search(r"was_modified_since\s*\(\s*[\w\.\*]+\s*,\s*&?\s*key\s*,", he):
+        notes.append("handle_exec: was_modified_since is not called with the stored `key` of the loop over watched_keys")
+    return not notes, notes
+
+
 def lean_str_list(xs):
     return "[" + ", ".join('"%s"' % x for x in xs) + "]"
 
@@ -366,6 +395,12 @@ def generate(src, strip_comments, fn_body, header):
     lines.append("/-- get_shard_index: (SHARDS_PER_DATABASE, FNV offset basis, FNV prime) of `hash ^= byte; hash *= prime; hash % shards`;")
     lines.append("    (0, 0, 0) when the function no longer has that shape. -/")
     lines.append("def shardConsts : Nat × Nat × Nat := (%d, %d, %d)" % (sc if sc else (0, 0, 0)))
+    kb, kb_notes = key_is_bytes(src, strip_comments, fn_body)
+    lines.append("")
+    lines.append("/-- WATCH / UNWATCH / EXEC hand the key to register_watch / unregister_watch / was_modified_since as the bytes of")
+    lines.append("    the frame: no text conversion (from_utf8, lossy, to_string, case folding, trim) on the way.%s -/"
+                 % ("" if kb else "  NOT SO: " + "; ".join(kb_notes).replace("-/", "- /")))
+    lines.append("def watchKeyIsBytes : Bool := %s" % ("true" if kb else "false"))
     q = quirks(src, strip_comments, fn_body)
     lines.append("")
     lines.append("/-- How the watch list is kept (src/storage/commands/transactions.rs, Server::handle_exec):")
